@@ -1208,9 +1208,15 @@ theorem ensureHasParent_faith (layers : List VPath) (hl : GoodLayers layers) (p 
   split
   · apply FaithfulIO.bind (exists_faith layers hl _)
     intro b; split
-    · apply FaithfulIO.bindQ _ (.ret _) (writePath_good layers hl _)
-      intro wp hwp
-      exact faith_createDirAll wp hwp
+    · -- the parent must be a directory of the merged view: two observer steps, one early exit
+      apply FaithfulIO.bindQ _ (readPath_faith layers hl _) (readPath_good layers hl _)
+      intro rp hrp
+      apply FaithfulIO.bind (faith_isDir rp hrp)
+      intro isd; split
+      · apply FaithfulIO.bindQ _ (.ret _) (writePath_good layers hl _)
+        intro wp hwp
+        exact faith_createDirAll wp hwp
+      · exact .failK _
     · exact .failK _
   · exact .failK _
 
